@@ -12,7 +12,7 @@ LEVEL = "exploration"
 RULE = (
     "inner graphs (small DAGs, gated programs whose selector is mapped so that items take different branches) mapped "
     "through runner.map and through map_over nested-graph nodes (also renamed, also one mapping node inside another): "
-    "1-3 mapped parameters, zip and product, list lengths 0-4, broadcast values, clone False/True/[names] observed "
+    "1-3 mapped parameters, zip and product, list lengths 0-4, broadcast values, clone False/True/[names] (on runner.map and on mapping nodes, where a value bound on the inner graph must bypass it) observed "
     "through the identity of the object each item's function received, chosen items failing (raise and continue), "
     "max_concurrency in {None,1,2,3} under random and adversarial (reverse) completion orders, both runners. Oracle: the "
     "combination list computed independently (zip position-wise, product row-major in map_over order); results[i] must "
@@ -284,6 +284,52 @@ def check_map_node(ctx, i):
     ctx.case({"form": "node", "s": gen.shape_of(outer), "mode": mode, "lens": [len(inputs[p]) for p in sub["map"]["over"]], "err": err, "bad": len(bad_vals), "two": two_level}, len(combos) >= 2, sample=case if i < 3 else None)
 
 
+def check_node_clone(ctx, i):
+    """clone on a mapping NODE: a broadcast input is shared or deep-copied per item as configured, while a value
+    bound on the inner graph always reaches the function as the bound object itself (bind bypasses clone)."""
+    rng = ctx.rng
+    CFG = ["bound-cfg"]
+    inner = {"name": "inner", "nodes": [{"k": "fn", "name": "use", "fid": "inner/use", "params": [{"n": "item"}, {"n": "cfg"}, {"n": "other"}], "outs": ["o"]}], "bind": {"cfg": CFG}}
+    ren = rng.random() < 0.5
+    ext = {"item": "items", "cfg": "cfg_x" if ren else "cfg", "other": "other_x" if ren else "other"}
+    clone = rng.choice([False, True, [ext["cfg"]], [ext["other"]], [ext["cfg"], ext["other"]]])
+    sub = {"k": "sub", "name": "inner", "prog": inner, "rename_in": [{k: v for k, v in ext.items() if k != v}], "map": {"over": ["items"], "mode": "zip", "err": "raise", "clone": clone}}
+    outer = {"name": "outer", "nodes": [sub], "bind": {}}
+    if rng.random() < 0.3:
+        outer = {"name": "top", "nodes": [{"k": "sub", "name": "outer", "prog": outer}], "bind": {}}
+    n = rng.randint(1, 4)
+    for runner in ("sync", "async"):
+        other = ["other-value"]
+        inputs = {"items": [f"it{j}" for j in range(n)], ext["other"]: other}
+        sched = rt.Sched(default="rand", rng=rng) if runner == "async" else None
+        o = core.execute(core.with_async(outer, runner == "async", rng), inputs, runner, sched=sched, max_concurrency=rng.choice([None, 1, 2]) if runner == "async" else None)
+        ctx.obs["map_calls"] += 1
+        case = {"form": "map_over node clone", "spec": core.jsonable(outer), "clone": clone, "runner": runner}
+        if o.deadlock or o.inconclusive:
+            ctx.inconc(o.inconclusive or "deadlock")
+            continue
+        if o.exc is not None or o.status != "completed":
+            ctx.violation("C10:node-run-failed", f"{runner}: clone={clone}: {o.status} {o.exc!r}", case)
+            continue
+        got = [e[2] for e in o.rec.ev if e[0] == "enter" and e[1].endswith("inner/use")]
+        if len(got) != n:
+            ctx.violation("C10:node-column:length", f"{runner}: {len(got)} invocations for {n} items", case)
+            continue
+        ctx.obs["clone_checked"] += 1
+        b = o.built
+        while "inner" not in b.subs:
+            b = next(iter(b.subs.values()))
+        bound_obj = b.subs["inner"].graph.inputs.bound["cfg"]  # the very object that was bound (the spec is copied on the way)
+        if any(kw["cfg"] is not bound_obj for kw in got):
+            ctx.violation("C10:inner-bound-value-copied", f"{runner}: clone={clone}: the value bound on the inner graph reached an item's function as a different object (bind values bypass clone)", case)
+        cloned = clone is True or (isinstance(clone, list) and ext["other"] in clone)
+        if not cloned and any(kw["other"] is not other for kw in got):
+            ctx.violation("C10:broadcast-copied", f"{runner}: clone={clone}: broadcast value reached a function as a different object", case)
+        if cloned and (any(kw["other"] is other for kw in got) or any(kw["other"] != other for kw in got) or len({id(kw["other"]) for kw in got}) != n):
+            ctx.violation("C10:clone-not-copied", f"{runner}: clone={clone}: broadcast value was shared between items (or altered)", case)
+    ctx.case({"form": "node-clone", "clone": str(clone), "ren": ren, "n": n}, n >= 2)
+
+
 def check_nested_map(ctx, i):
     """A mapping node inside a mapping node: xs = list of lists."""
     rng = ctx.rng
@@ -319,5 +365,7 @@ def run(ctx):
             check_runner_map(ctx, i)
         elif r in (2, 3):
             check_map_node(ctx, i)
+        elif i % 10 == 4:
+            check_node_clone(ctx, i)
         else:
             check_nested_map(ctx, i)
